@@ -4,7 +4,7 @@
 wt=/tmp/wt/fixrev; git -C /repo worktree remove --force $wt 2>/dev/null
 git -C /repo worktree add --detach $wt HEAD -q
 i=0
-declare -A PROP=( [1]=C08 [2]=C04 [3]=C15 [4]=C15 [5]=C15 [6]=C16 [7]=C12 [8]=C11 [9]=C14 [10]=C14 [11]=C17 [12]=C19 )
+declare -A PROP=( [1]=C08 [2]=C04 [3]=C15 [4]=C15 [5]=C15 [6]=C16 [7]=C12 [8]=C11 [9]=C14 [10]=C14 [11]=C17 [12]=C18 [13]=C19 )
 for c in $(git -C /repo log --reverse --format=%h --grep='^fix:' d4e86ea..HEAD); do
   i=$((i+1)); n=$(printf "fix%02d" $i); mkdir -p /verif/seeded/$n
   ( cd $wt && git revert --no-commit $c >/dev/null 2>&1 && git diff HEAD > /verif/seeded/$n/patch.diff; git revert --abort 2>/dev/null; git reset -q --hard HEAD )
